@@ -1,9 +1,13 @@
 use crate::engine::Prop;
 
+pub mod c08;
+pub mod c09;
+pub mod c14;
 pub mod c17;
+pub mod fmt_common;
 
 pub fn all() -> Vec<&'static dyn Prop> {
-  vec![&c17::C17]
+  vec![&c08::C08, &c09::C09, &c14::C14, &c17::C17]
 }
 
 pub fn by_id(id: &str) -> Option<&'static dyn Prop> {
